@@ -74,8 +74,8 @@ def main():
                 "evidence_file": f"/verif/evidence/{pid}.json",
                 "replay_cmd_template": "./check replay {path}",
                 "engine": "lc3mc",
-                "level_claimed": {"category": "model_checking", "text": text, "design_ref": f"DESIGN.md section 4, {pid}"},
-                "level_note": note + "; real code is executed for every explored case (no separate model), panics judged under overflow-checks",
+                "level_claimed": {"category": "model_checking", "text": text, "design_ref": f"DESIGN.md section 4, {pid}; as built: section 9"},
+                "level_note": note + "; the small scope is complemented by enumerated non-initial states (reused / reset simulators, operation histories), flag and entry-point variants, and a scale family at sizes on both sides of the representation thresholds 2^5..2^16 (DESIGN.md 9.5, rounds 2-4) - between thresholds nothing is claimed; real code is executed for every explored case (no separate model), panics judged under overflow-checks",
                 "technique": tech,
             })
         else:
